@@ -75,9 +75,12 @@ struct Tgt {
     whole: Option<fn(&Meta) -> Option<String>>,
 }
 
-fn lit_of(e: &Expr) -> Option<&Lit> {
+fn lit_of(e: &Expr) -> Option<Lit> {
     match strip_groups(e) {
-        Expr::Lit(l) => Some(&l.lit),
+        Expr::Lit(l) => Some(l.lit.clone()),
+        // `-` applied to a numeric literal is how a negative literal arrives when it is not the
+        // last thing in its token stream: the same literal
+        Expr::Unary(u) if matches!(u.op, syn::UnOp::Neg(_)) && matches!(&*u.expr, Expr::Lit(l) if matches!(l.lit, Lit::Int(_) | Lit::Float(_))) => syn::parse2::<Lit>(quote::ToTokens::to_token_stream(u)).ok(),
         _ => None,
     }
 }
@@ -127,7 +130,7 @@ macro_rules! vec_lit_kind {
                     let mut out = vec![];
                     for el in &a.elems {
                         match lit_of(el) {
-                            Some(l) if matches!(l, $variant(_)) => out.push(canon_of(l)),
+                            Some(l) if matches!(l, $variant(_)) => out.push(canon_of(&l)),
                             _ => return None,
                         }
                     }
@@ -140,7 +143,7 @@ macro_rules! vec_lit_kind {
                 let mut out = vec![];
                 for el in &a.elems {
                     match lit_of(el) {
-                        Some(l) if matches!(l, $variant(_)) => out.push(canon_of(l)),
+                        Some(l) if matches!(l, $variant(_)) => out.push(canon_of(&l)),
                         _ => return None,
                     }
                 }
